@@ -78,7 +78,8 @@ function makeRealm (seed, opts) {
     if (r < 0.52) return -0
     if (r < 0.58) return ['a', 'b', value(depth + 1)]
     if (r < 0.62) return { p: value(depth + 1), q: 'plain' }
-    if (r < 0.74 && depth < 3) return fn(depth)
+    if (r < 0.66) return iter(depth)
+    if (r < 0.76 && depth < 3) return fn(depth)
     if (r < 0.82) return prim(depth)
     if (depth < 3) return obs(depth)
     return 'leaf'
@@ -106,6 +107,12 @@ function makeRealm (seed, opts) {
     reg(f, name || 'fn')
     Object.defineProperty(f, 'toString', { value: () => ids.get(f), enumerable: false })
     return f
+  }
+  function iter (depth) { // iterable whose every expansion is logged
+    const items = [value(depth + 1), 'it']
+    const o = { [Symbol.iterator] () { ev('iterate', ids.get(o)); return items[Symbol.iterator]() } }
+    reg(o, 'iter')
+    return o
   }
   function prim (depth) { // object with logged coercions; coercions are pure (constant results)
     const s = strings[Math.floor(rnd() * strings.length)]
